@@ -613,7 +613,7 @@ val truncate : tcfg -> nat -> z -> unit m
 
 val clear : tcfg -> nat -> unit m
 
-val drop_handle : tcfg -> handle -> nat -> unit m
+val drop_body : tcfg -> nat -> unit m
 
 val drop_vec : tcfg -> nat -> unit m
 
@@ -717,6 +717,14 @@ val index : tcfg -> nat -> z -> elem m
 val slice_range : tcfg -> nat -> bound -> bound -> elem list m
 
 val leak : tcfg -> nat -> elem list m
+
+val byte_of : tcfg -> eptr -> (nat * z) m
+
+val into_raw_parts : tcfg -> nat -> ((eptr * z) * z) m
+
+val from_raw_part : tcfg -> eptr -> handle m
+
+val from_raw_parts : tcfg -> eptr -> z -> z -> handle m
 
 val raw_roundtrip : tcfg -> nat -> bool -> (z * z) m
 
